@@ -69,6 +69,25 @@ def _roundtrip(text, d, tag):
         diff = {k: (m1.get(k), m2.get(k)) for k in set(m1) | set(m2) if m1.get(k) != m2.get(k)}
         v.append(("roundtrip:%s" % tag, "file %r: parse -> %r, after write and parse -> differs on %r (written: %r)"
                   % (text, {k: m1[k] for k in diff}, diff, open(f2).read())))
+    # the file that is named is the file that is written and parsed - whatever it is called (an update written under a temporary name before
+    # being renamed, an upper-case extension) and whatever else lies next to it (here: a.meta, holding the text above, and a decoy of the same stem)
+    try:
+        for name in ("a.meta.tmp", "a.META", "a.ap.tmp"):
+            f3 = os.path.join(d, name)
+            decoy = os.path.join(d, os.path.splitext(name)[0] + ".meta")
+            if not os.path.exists(decoy):
+                with open(decoy, "w") as f:
+                    f.write("typeThis=decoy\nnSavedChans=3\n")
+            m1b = dict(m1)
+            m1b["verifMarker"] = "written under %s" % name
+            spikeglx.write_meta_data(m1b, f3)
+            m3 = spikeglx.read_meta_data(f3)
+            if not _eq(dict(m3), dict(spikeglx.read_meta_data(f3))) or m3.get("verifMarker") != m1b["verifMarker"] or m3.get("typeThis") == "decoy":
+                v.append(("roundtrip:file-name:%s" % tag, "meta data written to %s and parsed from %s: the parse returns %r (another file of the folder?)"
+                          % (name, name, {k: m3.get(k) for k in ("verifMarker", "typeThis")})))
+                break
+    except Exception as e:
+        v.append(("roundtrip:file-name:exc:%s" % tag, "writing / parsing a metadata file not called *.meta raised %s: %s" % (type(e).__name__, e)))
     return v, m1
 
 
